@@ -55,13 +55,16 @@ type chanEvent struct {
 }
 
 type chanOut struct {
-	Events        []chanEvent `json:"events"`
-	Enabled       []int       `json:"enabled"` // number of parked goroutines at each step
-	Chosen        []string    `json:"chosen"`  // "g@point" released at each step
-	Divergent     bool        `json:"divergent"`
-	Stuck         []int       `json:"stuck"`
-	Drained       []int       `json:"drained"`
-	HarnessClosed bool        `json:"harness_closed"`
+	Events    []chanEvent `json:"events"`
+	Enabled   []int       `json:"enabled"` // number of parked goroutines at each step
+	Chosen    []string    `json:"chosen"`  // "g@point" released at each step
+	Divergent bool        `json:"divergent"`
+	Stuck     []int       `json:"stuck"`
+	Drained   []int       `json:"drained"`
+	// DrainedLate: values found by the second drain, i.e. delivered after the first drain had already
+	// seen the channel closed and empty
+	DrainedLate   []int `json:"drained_late"`
+	HarnessClosed bool  `json:"harness_closed"`
 }
 
 type lg struct {
@@ -355,7 +358,7 @@ joining:
 				break
 			}
 			if iv, isInt := v.(*data.IntValue); isInt {
-				s.out.Drained = append(s.out.Drained, iv.Value)
+				s.out.DrainedLate = append(s.out.DrainedLate, iv.Value)
 			}
 		}
 	}()
@@ -448,6 +451,28 @@ func judgeChanHistory(cfg chanCfg, out *chanOut) [][2]string {
 	}
 	for _, v := range out.Drained {
 		recvd[v]++
+	}
+	for _, v := range out.DrainedLate {
+		recvd[v]++
+	}
+	// after close, receivers drain what is buffered and then get null: once a receive that started
+	// after the close completed has reported closed-and-empty, no value may turn up any more
+	emptyStep := -1
+	for _, e := range out.Events {
+		if e.Kind == "recv" && !e.Ok && closeStep >= 0 && e.From > closeStep && (emptyStep < 0 || e.Step < emptyStep) {
+			emptyStep = e.Step
+		}
+	}
+	if emptyStep >= 0 {
+		for _, e := range out.Events {
+			if e.Kind == "recv" && e.Ok && e.From > emptyStep {
+				add("cell:value-after-closed-empty", fmt.Sprintf("value %d was received by a receive started at step %d, after a receive had reported the channel closed and empty at step %d", e.Val, e.From, emptyStep))
+				break
+			}
+		}
+	}
+	if len(out.DrainedLate) > 0 {
+		add("cell:value-after-closed-empty", fmt.Sprintf("values %v arrived in the channel after the final drain had seen it closed and empty (a send released after the close reported success)", out.DrainedLate))
 	}
 	for v, n := range sentOK {
 		switch {
@@ -565,7 +590,7 @@ func TestC09(t *testing.T) {
 	cfg := sb.LoadConfig("C09")
 	rec := sb.NewRec(cfg)
 	defer rec.Flush()
-	rec.R.Rule = "schedules over real goroutines driving std/channel (capacity 0..4, producers 1..3, consumers 1..3, closers 0..2, <= 3 operations each); a schedule is the sequence of choices 'which parked goroutine runs next', goroutines park before every operation and at the verif hook points inside Send and Close. Small configurations are enumerated completely by DFS with replay from scratch, larger ones draw the choices with rapid. History invariants at quiescence: multiset(received) = multiset(successful sends), per-sender order, nothing received that was not sent, send after close fails, no panic, nobody stuck. Non-trivial = a close released while a send or another close is parked at its hook point, or two senders interleaving on a buffered channel; distinct by (configuration, chosen schedule)."
+	rec.R.Rule = "schedules over real goroutines driving std/channel (capacity 0..4, producers 1..3, consumers 1..3, closers 0..2, <= 3 operations each); a schedule is the sequence of choices 'which parked goroutine runs next', goroutines park before every operation and at the verif hook points inside Send and Close. Small configurations are enumerated completely by DFS with replay from scratch, larger ones draw the choices with rapid. History invariants at quiescence: multiset(received) = multiset(successful sends), per-sender order, nothing received that was not sent, send after close fails, no value turns up after a receive reported closed-and-empty, no panic, nobody stuck. Non-trivial = a close released while a send or another close is parked at its hook point, or two senders interleaving on a buffered channel; distinct by (configuration, chosen schedule)."
 	pool := &sb.Pool{}
 	defer pool.Close()
 	dl := time.Now().Add(budget(cfg, 60, 800))
